@@ -1646,7 +1646,13 @@ func (state *RuntimeState) u2fTokenManagerHandler(w http.ResponseWriter, r *http
 		return
 	}
 	w.(*instrumentedwriter.LoggingWriter).SetUsername(authData.Username)
-	// TODO: ensure is a valid method (POST)
+	// Tokens are only changed by POST: checkAuth does not compare the
+	// Origin/Referer of GET requests.
+	if r.Method != "POST" {
+		logger.Printf("Wanted Post got='%s'", r.Method)
+		state.writeFailureResponse(w, r, http.StatusMethodNotAllowed, "")
+		return
+	}
 	err = r.ParseForm()
 	if err != nil {
 		logger.Println(err)
